@@ -33,6 +33,17 @@ demanded to run before the killer, and is *optional* when their relative
 order is unconstrained (`Model.last_optional`; callers then also stop
 extending the history, because the resulting state is not decided).
 
+CmdPeriod actions that act on responders (`Model.add_cp_action`): CmdPeriod
+runs "exactly the actions currently registered, in registration order", and a
+non-permanent enabled responder is freed by an action of that registry which
+was registered when the responder was created / last enabled / last declared
+non-permanent (`Responder.hook`).  A user action registered *before* that
+moment runs first: if it declares the responder permanent (or frees /
+disables it) the responder's own action is no longer registered when its turn
+comes, so a responder made permanent in time persists and keeps firing.  A
+user action registered *after* that moment finds the responder freed; what
+declaring a freed responder permanent means is not decided (`Model.undecided`).
+
 Several responders may have been given the same function object (`shared`);
 that does not change anything in what has to happen.
 """
@@ -74,6 +85,7 @@ class Responder:
         self.survived = 0           # CmdPeriods it had to survive
         self.survived_dd = False    # ... one of them after having been
         #                             declared permanent while disabled
+        self.hook = rank            # rank of its CmdPeriod registration | None
 
 
 class Model:
@@ -82,6 +94,8 @@ class Model:
         self.clock = 0
         self.last_killed = []
         self.last_optional = []
+        self.cp_actions = []        # [{'k', 'how', 'j', 'rank'}]
+        self.undecided = False
 
     def _tick(self):
         self.clock += 1
@@ -102,18 +116,21 @@ class Model:
         if r.state == 'disabled':
             r.state = 'enabled'
             r.enabled_at = self._tick()
+            r.hook = None if r.permanent else r.enabled_at
             r.changes += 1
 
     def disable(self, i):
         r = self.rs[i]
         if r.state == 'enabled':
             r.state = 'disabled'
+            r.hook = None
             r.changes += 1
 
     def free(self, i):
         r = self.rs[i]
         if r.state in ('enabled', 'disabled'):
             r.state = 'freed'
+            r.hook = None
             r.changes += 1
 
     def one_shot(self, i):
@@ -138,10 +155,20 @@ class Model:
     def set_permanent(self, i, value):
         """A permanent responder persists beyond CmdPeriod, whether it was
         enabled or disabled when it was declared permanent."""
-        self.rs[i].permanent = bool(value)
-        self.rs[i].perm_declared = self.rs[i].state if value else None
+        r = self.rs[i]
+        if r.state == 'enabled' and bool(value) != r.permanent:
+            r.hook = None if value else self._tick()
+        r.permanent = bool(value)
+        r.perm_declared = r.state if value else None
         if not value:
-            self.rs[i].survived = 0
+            r.survived = 0
+
+    def add_cp_action(self, k, how, j):
+        """Registers in CmdPeriod a user action that, whenever it runs,
+        declares responder j permanent / frees it / disables it (nothing if
+        that responder does not exist yet)."""
+        self.cp_actions.append({'k': k, 'how': how, 'j': j,
+                                'rank': self._tick()})
 
     def cmd_period(self):
         """Responders do not persist beyond CmdPeriod unless they are
@@ -149,6 +176,31 @@ class Model:
         responder that was disabled at that moment is not decided by the
         statement; the model retires it (no further operations are offered)
         and it must simply stay silent, as any disabled responder."""
+        self.undecided = False
+        events = [(a['rank'], 'act', a) for a in self.cp_actions] + \
+                 [(r.hook, 'hook', r) for r in self.rs if r.hook is not None]
+        events.sort(key=lambda e: e[0])
+        freed_now = set()
+        for _, typ, x in events:
+            if typ == 'hook':
+                if x.hook is None:
+                    continue    # no longer registered when its turn comes
+                x.state = 'freed'
+                x.hook = None
+                x.changes += 1
+                freed_now.add(x.rid)
+                continue
+            if x['j'] >= len(self.rs):
+                continue
+            if x['how'] == 'permanent':
+                if x['j'] in freed_now:
+                    self.undecided = True
+                elif self.live(x['j']) and not self.rs[x['j']].permanent:
+                    self.set_permanent(x['j'], True)
+            elif x['how'] == 'free':
+                self.free(x['j'])
+            else:
+                self.disable(x['j'])
         for r in self.rs:
             if r.permanent:
                 if r.state in ('enabled', 'disabled'):
@@ -158,6 +210,7 @@ class Model:
                 continue
             if r.state in ('enabled', 'disabled'):
                 r.state = 'freed'
+                r.hook = None
                 r.changes += 1
 
     def live(self, i):
@@ -231,6 +284,7 @@ class Model:
             r = self.rs[f['rid']]
             if r.oneshot:
                 r.state = 'spent'
+                r.hook = None
                 r.changes += 1
         for k in killers:
             j, how = k.kills
@@ -254,7 +308,11 @@ class Model:
                  if r.permanent else []) +
                 (['survived-declared-while-disabled'] if r.survived_dd
                  else [])
-                for r in self.rs]
+                for r in self.rs] + \
+            [['cp-action', a['k'], a['how'], a['j'],
+              [r.rid for r in self.rs
+               if r.hook is not None and r.hook < a['rank']]]
+             for a in self.cp_actions]
 
     def nontrivial(self):
         return any(r.changes >= 2 for r in self.rs)
@@ -340,6 +398,30 @@ def selftest():
     t.set_permanent(2, False)
     t.cmd_period()
     assert tids([1]) == []
+    # CmdPeriod actions that act on responders
+    c = Model()
+    c.add_cp_action(0, 'permanent', 0)
+    c.create('/a', False, None, None, None)                     # 0: after it
+    c.create('/a', False, None, None, None)                     # 1: control
+    c.cmd_period()
+    assert c.rs[0].state == 'enabled' and c.rs[0].permanent and \
+        c.rs[0].survived == 1 and c.rs[1].state == 'freed' and \
+        not c.undecided
+    c = Model()
+    c.create('/a', False, None, None, None)                     # 0: before it
+    c.add_cp_action(0, 'permanent', 0)
+    c.cmd_period()
+    assert c.rs[0].state == 'freed' and c.undecided
+    c = Model()
+    c.create('/a', False, None, None, None)
+    c.add_cp_action(0, 'permanent', 0)
+    c.disable(0)
+    c.enable(0)             # registered again: now after the action
+    c.cmd_period()
+    assert c.rs[0].state == 'enabled' and not c.undecided
+    c.set_permanent(0, False)
+    c.cmd_period()          # the action runs first again
+    assert c.rs[0].state == 'enabled' and c.rs[0].permanent
     # a callback that frees / disables another responder
     k = Model()
     for _ in range(3):
